@@ -194,6 +194,11 @@ def mon_C05(ctx, ops, states):
                     bad.append((i, 'C05: installed although SHA-256 of the inflated file differs from the advertised hash'))
                 if nb['size'] != len(blob):
                     bad.append((i, 'C05: recorded size differs from the verified file'))
+                infl = getattr(ctx, 'infl', None)
+                dn = o['dl'][1:]
+                if infl is not None and dn in infl and infl[dn] != blob:
+                    bad.append((i, 'C05: installed, but applying the downloaded bytes to the base does not produce the installed file (it %s)' % (
+                        'fails' if infl[dn] is None else 'yields %d bytes' % len(infl[dn]))))
         else:
             rb = r['rb'] if r else None
             if not rb and nb_looks_valid(pre) and not state_reset(o, pre, cfg['rel']):
